@@ -410,7 +410,12 @@ class DiffXReader(object):
                 option_value = option_value.decode('ascii')
 
                 if is_int:
-                    option_value = int(option_value)
+                    try:
+                        option_value = int(option_value)
+                    except ValueError:
+                        # Python limits the number of digits it will
+                        # convert. Leave enormous values as they are.
+                        pass
 
                 options[option_key] = option_value
 
